@@ -881,27 +881,34 @@ fn env_num(name: &str, default: u64) -> u64 {
 }
 
 enum Work {
-    Lex { alpha: Vec<String>, cases: Vec<Value> },
+    Lex { alpha: Vec<String>, cases: Vec<Value>, offset: usize, total: usize },
     Tree { cx: Ctx, cases: Vec<Value> },
     Smoke { seed: u64, n: u64, sentences: Vec<String> },
 }
 impl Work {
     fn len(&self) -> usize {
         match self {
-            Work::Lex { cases, .. } | Work::Tree { cases, .. } => cases.len(),
+            Work::Lex { total, .. } => *total,
+            Work::Tree { cases, .. } => cases.len(),
             Work::Smoke { n, .. } => *n as usize,
         }
     }
 }
 
-fn load(mode: &str, file: &str) -> Result<Work, String> {
+fn load(mode: &str, file: &str, from: usize, to: usize) -> Result<Work, String> {
     let f = std::fs::File::open(file).map_err(|e| format!("{file}: {e}"))?;
     let mut lines = BufReader::new(f).lines();
     let header: Value = serde_json::from_str(&lines.next().ok_or("empty case file")?.map_err(|e| e.to_string())?).map_err(|e| e.to_string())?;
     let mut cases = Vec::new();
+    let mut total = 0usize;
     for l in lines {
         let l = l.map_err(|e| e.to_string())?;
         if l.trim().is_empty() {
+            continue;
+        }
+        total += 1;
+        // the lexical family is large: a worker keeps its own range only
+        if mode == "lex" && (total <= from || total > to) {
             continue;
         }
         cases.push(serde_json::from_str::<Value>(&l).map_err(|e| format!("bad case line: {e}"))?);
@@ -910,6 +917,8 @@ fn load(mode: &str, file: &str) -> Result<Work, String> {
         "lex" => Ok(Work::Lex {
             alpha: header["alpha"].as_array().ok_or("lex header without alpha")?.iter().map(|s| s.as_str().unwrap().to_string()).collect(),
             cases,
+            offset: from,
+            total,
         }),
         "tree" | "smoke" => {
             let tables = Tables::new();
@@ -947,7 +956,7 @@ fn load(mode: &str, file: &str) -> Result<Work, String> {
 
 fn worker(mode: &str, file: &str, from: usize, to: usize) -> i32 {
     std::panic::set_hook(Box::new(|_| {}));
-    let work = match load(mode, file) {
+    let work = match load(mode, file, from, to) {
         Ok(w) => Arc::new(w),
         Err(e) => {
             println!("{}", json!({"tool_error": e}));
@@ -978,7 +987,7 @@ fn worker(mode: &str, file: &str, from: usize, to: usize) -> i32 {
                     }
                     let t0 = Instant::now();
                     let r = match &*w {
-                        Work::Lex { alpha, cases } => check_lex(alpha, &cases[k], &mut out),
+                        Work::Lex { alpha, cases, offset, .. } => check_lex(alpha, &cases[k - offset], &mut out),
                         Work::Tree { cx, cases } => {
                             if cases[k].get("toks").is_some() {
                                 check_tree(cx, &cases[k], &mut out)
@@ -1186,7 +1195,7 @@ fn main() {
         Some("worker") if a.len() >= 6 => worker(&a[2], &a[3], a[4].parse().unwrap_or(0), a[5].parse().unwrap_or(usize::MAX)),
         Some("text") if a.len() >= 3 => {
             // render the cases of a file (debugging aid): drive_kip text <cases.jsonl>
-            match load("tree", &a[2]) {
+            match load("tree", &a[2], 0, usize::MAX) {
                 Ok(Work::Tree { cx, cases }) => {
                     for c in cases.iter().filter(|c| c.get("toks").is_some()) {
                         match render(&cx.tables, c["toks"].as_array().unwrap(), Variant::Canon, 0) {
